@@ -168,7 +168,7 @@ template <typename S> static S rnd_shape(pplv::Rng& g, dimension_type n) {
     mpq_class v = eval(c, p);
     cs.insert(bound(expr_of(c), eq ? v : mpq_class(v + sl), eq));
   }
-  if (g.chance(1, 25)) { std::vector<int> c = rnd_dir<S>(g, n); cs.insert(bound(expr_of(c), eval(c, p) - 1, false)); cs.insert(bound(-expr_of(c), -eval(c, p) - 1, false)); }   // empty now and then
+  if (g.chance(1, Tr<S>::box ? 7 : 25)) { std::vector<int> c = rnd_dir<S>(g, n); cs.insert(bound(expr_of(c), eval(c, p) - 1, false)); cs.insert(bound(-expr_of(c), -eval(c, p) - 1, false)); }   // empty now and then (boxes: often — an undetected-empty receiver, not marked, reaches get_limiting_box)
   S s(n, UNIVERSE); s.refine_with_constraints(cs); return s;
 }
 
@@ -386,7 +386,41 @@ template <typename S> static void run_raw(pplv::Rng& g, const std::string& cid) 
   one_call<S>(g, cid + ".m", 4, x, y, tok, cs, (S*)0);
   one_call<S>(g, cid + ".g", 5, x, y, -1, cs, (S*)0);
 }
-template <> void run_raw<XQ>(pplv::Rng&, const std::string&) {}
+// boxes: intervals refined bound by bound, so that an inverted pair of bounds stays an UNDETECTED-empty interval
+// (not marked empty) in the receiver and/or in y; limiting rows aimed at the bounds of the receiver
+template <> void run_raw<XQ>(pplv::Rng& g, const std::string& cid) {
+  dimension_type n = 1 + g.below(3);
+  XQ x(n, UNIVERSE), y(n, UNIVERSE);
+  Constraint_System cs; cs.insert(dimfix(n) >= -1);
+  unsigned mode = g.below(3);                       // 0: both fine, 1: y undetected-empty, 2: both undetected-empty (x empty implies y empty: precondition)
+  dimension_type bad = g.below(n);
+  for (dimension_type k = 0; k < n; ++k) {
+    mpq_class lo = rq(g, false), hi = lo + g.range(0, 3);
+    mpq_class xlo = lo - g.range(0, 2), xhi = hi + g.range(0, 2);
+    bool ybad = (k == bad) && (mode == 1 || mode == 2), xbad = (k == bad) && mode == 2;
+    if (ybad) std::swap(lo, hi), lo += 1;
+    if (xbad) { std::swap(xlo, xhi); xlo += 1; }
+    bool hl = xbad || !g.chance(1, 4), hu = xbad || !g.chance(1, 4);
+    // y keeps the precondition y ⊆ x: a bound of y is absent only where the receiver has none either
+    if (hl || ybad || !g.chance(1, 3)) y.refine_with_constraint(bound(-Linear_Expression(Variable(k)), -lo, false));
+    if (hu || ybad || !g.chance(1, 3)) y.refine_with_constraint(bound(Linear_Expression(Variable(k)), hi, false));
+    if (hl) x.refine_with_constraint(bound(-Linear_Expression(Variable(k)), -xlo, false));
+    if (hu) x.refine_with_constraint(bound(Linear_Expression(Variable(k)), xhi, false));
+    // limiting rows around the receiver's bounds
+    unsigned m = g.below(3) + (xbad ? 2 : 0);      // an undetected-empty component is `is_included()` in rows on both sides
+    for (unsigned t = 0; t < m; ++t) {
+      mpq_class b = (g.chance(1, 2) ? xlo : xhi) + g.range(-1, 1) + (xbad ? g.range(-2, 2) : 0);
+      bool up = g.chance(1, 2);
+      Linear_Expression e = up ? Linear_Expression(Variable(k)) : -Linear_Expression(Variable(k));
+      if (g.chance(1, 8)) cs.insert(bound(Linear_Expression(Variable(k)), b, true));
+      else cs.insert(bound(e, up ? b : mpq_class(-b), false));
+    }
+  }
+  int tok = g.chance(1, 3) ? (int)g.below(3) : -1;
+  one_call<XQ>(g, cid + ".a", g.below(2), x, y, tok, cs, (XQ*)0);
+  one_call<XQ>(g, cid + ".l", 3, x, y, tok, cs, (XQ*)0);
+  one_call<XQ>(g, cid + ".g", 5, x, y, -1, cs, (XQ*)0);
+}
 
 int main(int argc, char** argv) {
   long seed = pplv::arg_long(argc, argv, "--seed", 1), first = pplv::arg_long(argc, argv, "--first", 0),
@@ -405,7 +439,7 @@ int main(int argc, char** argv) {
           case 0: if (israw) run_raw<BQ>(g, cid); else run_chain<BQ>(g, cid); break;
           case 1: if (israw) run_raw<BZ>(g, cid); else run_chain<BZ>(g, cid); break;
           case 2: if (israw) run_raw<OQ>(g, cid); else run_chain<OQ>(g, cid); break;
-          case 3: if (!israw) run_chain<XQ>(g, cid); break;
+          case 3: if (israw) run_raw<XQ>(g, cid); else run_chain<XQ>(g, cid); break;
           }
         } catch (...) {
           J.line(cid + " exc-outside " + pplv::exc_class());
